@@ -431,7 +431,20 @@ def rw_R18(rf, a, b):
     return out
 
 
-REWRITES = {"R18": rw_R18, "R2b": rw_R2b, "R15": rw_R15, "R2": rw_R2, "R7": rw_R7, "R3": rw_R3, "R1": rw_R1, "R4": rw_R4, "R5": rw_R5, "R10": rw_R10, "R13": rw_R13, "R14": rw_R14}
+
+def rw_R19(rf, a, b):
+    """Box::new(Cursor::new(x)) / Box::new(io::empty()) as body readers -> verif_cursor(x) / verif_empty(): local opaque
+    reader types (Verus' trait-conflict checker cannot see std's `impl Read for Cursor<T>` / `Empty`); same-body wrappers."""
+    toks, sg, out = rf.toks, _sig(rf.toks, a, b), []
+    for k, i in enumerate(sg):
+        if _seq_at(toks, sg, k, ["Box", ":", ":", "new", "(", "Cursor", ":", ":", "new", "("]):
+            out.append((Edit(sg[k + 5], sg[k + 9], "verif_cursor", ("gen", "R19")), "R19 %s:%d Cursor::new(..) as body reader -> verif_cursor(..)" % (rf.rel, toks[i].line)))
+        if _seq_at(toks, sg, k, ["Box", ":", ":", "new", "(", "io", ":", ":", "empty", "(", ")"]):
+            out.append((Edit(sg[k + 5], sg[k + 9], "verif_empty", ("gen", "R19")), "R19 %s:%d io::empty() as body reader -> verif_empty()" % (rf.rel, toks[i].line)))
+    return out
+
+
+REWRITES = {"R19": rw_R19, "R18": rw_R18, "R2b": rw_R2b, "R15": rw_R15, "R2": rw_R2, "R7": rw_R7, "R3": rw_R3, "R1": rw_R1, "R4": rw_R4, "R5": rw_R5, "R10": rw_R10, "R13": rw_R13, "R14": rw_R14}
 
 
 # --------------------------------------------------------------------------------------------
@@ -872,10 +885,10 @@ class Unit:
         # before / after anchors
         sgb = _sig(toks, bo + 1, be)
         for k, tok, lines in fs.before:
-            words = tok.split()
-            optional = words[-1] == "?optional"
+            optional = tok.endswith(" ?optional")
             if optional:
-                words = words[:-1]
+                tok = tok[:-len(" ?optional")]
+            words = [t.text for t in L.tokenize(tok) if t.kind != "ws"]
             occ = [x for x in range(len(sgb)) if _seq_at(toks, sgb, x, words)]
             if optional and (k < 1 or k > len(occ)):
                 continue   # the guarded statement is gone: the function's ensures still stand
@@ -912,7 +925,7 @@ class Unit:
             else:
                 edits.append(Edit(i, i, "\n" + tpl_text(lines), ("tpl", relname, lines[0][1] - 1)))
         for k, tok, lines in fs.after:
-            words = tok.split()
+            words = [t.text for t in L.tokenize(tok) if t.kind != "ws"]
             occ = [x for x in range(len(sgb)) if _seq_at(toks, sgb, x, words)]
             if k < 1 or k > len(occ):
                 raise Undecided("lost anchor: occurrence %d of `%s` in %s (%d found)" % (k, tok, qual, len(occ)))
